@@ -102,6 +102,8 @@ def run(ctx):
                     sig = 'C07:rt:%s:lost_notification' % kind if ('woke only' in detail or 'hang' in detail or 'did not finish' in detail) else 'C07:rt:%s:return_state' % kind
                 elif kind == 'timed':
                     sig = 'C07:rt:timed:' + ('timeout_although_notified' if 'although' in detail else 'status')
+                elif kind == 'pred':
+                    sig = 'C07:rt:pred:' + ('returned_with_false_predicate' if 'never set' in detail else 'no_return' if 'did not return' in detail else 'return_state')
                 elif kind == 'stop':
                     sig = 'C07:rt:stop:' + ('no_return' if 'did not return' in detail else 'value')
                 else:
